@@ -1678,22 +1678,50 @@ impl ASN1Value {
         s.members
             .iter()
             .map(|member| {
-                val.iter()
-                    .find_map(|(name, value)| {
-                        (name.as_ref() == Some(&member.name))
-                            .then_some(StructLikeFieldValue::Explicit(value.clone()))
-                    })
-                    .or(member
-                        .optionality
-                        .default()
-                        .map(|d| StructLikeFieldValue::Implicit(Box::new(d.clone()))))
-                    .ok_or_else(|| {
-                        grammar_error!(LinkerError, "No value for field {} found!", member.name)
-                    })
-                    .map(|field_value| (member.name.clone(), member.ty.clone(), field_value))
+                let explicit = val.iter().find_map(|(name, value)| {
+                    (name.as_ref() == Some(&member.name))
+                        .then_some(StructLikeFieldValue::Explicit(value.clone()))
+                });
+                let field_value = match (explicit, member.optionality.default()) {
+                    (Some(explicit), _) => explicit,
+                    (None, Some(default)) => {
+                        // the DEFAULT of a type that has not been linked yet is still as the lexer left it
+                        let mut default = default.clone();
+                        if !default.is_linked_default() {
+                            default.link_with_type(
+                                tlds,
+                                &member.ty,
+                                Some(&member.ty.as_str().into_owned()),
+                            )?;
+                        }
+                        StructLikeFieldValue::Implicit(Box::new(default))
+                    }
+                    (None, None) => {
+                        return Err(grammar_error!(
+                            LinkerError,
+                            "No value for field {} found!",
+                            member.name
+                        ))
+                    }
+                };
+                Ok((member.name.clone(), member.ty.clone(), field_value))
             })
             .collect::<Result<Vec<_>, _>>()
             .map(ASN1Value::LinkedStructLikeValue)
+    }
+
+    /// Whether a DEFAULT has been linked already: the lexer never gives a DEFAULT one of these forms.
+    fn is_linked_default(&self) -> bool {
+        matches!(
+            self,
+            Self::LinkedNestedValue { .. }
+                | Self::LinkedIntValue { .. }
+                | Self::LinkedStructLikeValue(_)
+                | Self::LinkedArrayLikeValue(_)
+                | Self::LinkedCharStringValue(_, _)
+                | Self::LinkedElsewhereDefinedValue { .. }
+                | Self::EnumeratedValue { .. }
+        )
     }
 
     pub fn is_elsewhere_declared(&self) -> bool {
